@@ -108,6 +108,38 @@ PiecesSpecialOK(m, k, sg, f, ps) ==
     /\ -2 \notin PieceNodes(ps)
 PiecesWhole(m, k, sg, f, ps) == CrossesAM(m, k, sg, f) \/ (Len(ps) = 1 /\ RingIsFace(m, ps[1], f))
 
+(* ---- projections that do not show the whole sphere ------------------------------ *)
+\* c = direction of the projection centre; pk = "ortho" (orthographic: the hemisphere facing the viewer) or
+\* "nsper" (near-side perspective from one radius above the surface: the cap of 60 degrees, cos = 1/2).
+\* A corner is "vis" / "hid" only when it is clearly so (nsper: 2 degrees of margin either side of the
+\* horizon, the library's ellipsoid moves it slightly); everything else is "unclear" and never judged.
+NodeVis(v, c, pk) ==
+    LET d == Dot(v, c)
+        n == N2(v) * N2(c)
+    IN IF pk = "ortho" THEN (IF d > 0 THEN "vis" ELSE IF d < 0 THEN "hid" ELSE "unclear")
+       ELSE IF d > 0 /\ d * d * 10000 > 2809 * n THEN "vis"
+       ELSE IF d <= 0 \/ d * d * 10000 < 2209 * n THEN "hid"
+       ELSE "unclear"
+\* a polygon survives iff none of its vertices projects to NaN
+FaceVis(m, f, c, pk) ==
+    LET ks == { NodeVis(m.nodes[n + 1], c, pk) : n \in Corners(m, f) }
+    IN IF ks = {"vis"} THEN "vis" ELSE IF "hid" \in ks THEN "hid" ELSE "unclear"
+\* cartopy's own NaN pattern (nodenan[n]) agrees with the exact classification wherever that is clear
+OracleAgrees(m, c, pk, nodenan) ==
+    \A n \in 1..Len(m.nodes) :
+        LET k == NodeVis(m.nodes[n], c, pk) IN (k = "vis" => ~nodenan[n]) /\ (k = "hid" => nodenan[n])
+\* laws: visibility is monotone in the cap, and the antipode of a clearly visible point is clearly hidden
+VisLaws(m, c) ==
+    \A n \in 1..Len(m.nodes) :
+        /\ (NodeVis(m.nodes[n], c, "nsper") = "vis" => NodeVis(m.nodes[n], c, "ortho") = "vis")
+        /\ (NodeVis(m.nodes[n], c, "ortho") = "vis" => NodeVis(Neg(m.nodes[n]), c, "ortho") = "hid")
+        /\ (NodeVis(m.nodes[n], c, "ortho") = "hid" => NodeVis(m.nodes[n], c, "nsper") = "hid")
+
+\* a mesh handed to the checks is well formed: convex counter-clockwise faces, distinct node directions
+WellFormedMesh(m) ==
+    /\ \A f \in FaceIds(m) : ConvexCCW(FaceDirs(m, f))
+    /\ \A a, b \in 1..Len(m.nodes) : a # b => ~SameDir(m.nodes[a], m.nodes[b])
+
 (* ---- laws of the specification itself (checked by TLC in PolyGen) -------------- *)
 KeptPartition(m, k, sg) ==
     LET K == Kept(m, k, sg) IN
